@@ -343,7 +343,8 @@ def check(case):
         with case.clause('sensitivities_first'):
             f2 = rf.build(parts, obs, composed)
             out2 = f2.compute_sensitivities(sim.copy())
-            case.close(float(out2[0]), want, rtol=max(1e-9, 100.0 * _COND[0]),
+            # (compared with chi's own value where there is one: the reference value is the subject of clause 'value')
+            case.close(float(out2[0]), want if v0 is None else v0, rtol=max(1e-9 if v0 is None else 1e-12, 100.0 * _COND[0]),
                        what='score of compute_sensitivities as the first evaluation of a new filter')
             if v0 is not None and not case.fails:
                 out1 = f.compute_sensitivities(sim.copy())
